@@ -12,6 +12,12 @@ bad = 0
 for name in names:
     pid = name.split("_")[0]
     patch = os.path.join(ROOT, "seeded", name, "patch.diff")
+    try:
+        # a change may sit in another property's territory (recorded by tools/eval_seed.py --check-id)
+        cmd = json.load(open(os.path.join(ROOT, "seeded", name, "meta.json")))["check"]["cmd"]
+        pid = re.search(r"\./check (C\d\d)", cmd).group(1)
+    except Exception:
+        pass
     wt = f"/tmp/sens_{name}_{os.getpid()}"
     subprocess.run(["git", "-C", "/repo", "worktree", "add", "-q", "--detach", wt, "HEAD"], check=True, capture_output=True)
     try:
